@@ -61,8 +61,18 @@ def fit_model(p, X, y, Xv, yv, c=1.0):
     from xrfm.rfm_src import RFM
     from harness.rfmrec import ScriptedFit
     t = lambda a: torch.from_numpy(a).to(torch.float64)
-    model = RFM(kernel=p['kernel'], bandwidth=p['base'], exponent=p['q'], norm_p=p.get('p'), bandwidth_mode='adaptive',
-                diag=p['diag'], device='cpu', verbose=False, tuning_metric='mse')
+    if p.get('logistic'):
+        # binary labels, leaves fitted by the logistic (IRLS) solver: the bandwidth is adapted exactly as for the closed-form solvers
+        from xrfm.rfm_src.class_conversion import ClassificationConverter
+        import numpy as np
+        thr = float(np.median(y[:, 0]))
+        y, yv = (y[:, :1] > thr).astype(np.float64), (yv[:, :1] > thr).astype(np.float64)
+        model = RFM(kernel=p['kernel'], bandwidth=p['base'], exponent=p['q'], norm_p=p.get('p'), bandwidth_mode='adaptive',
+                    diag=p['diag'], device='cpu', verbose=False, tuning_metric='accuracy', solver='log_reg',
+                    class_converter=ClassificationConverter('zero_one', n_classes=2))
+    else:
+        model = RFM(kernel=p['kernel'], bandwidth=p['base'], exponent=p['q'], norm_p=p.get('p'), bandwidth_mode='adaptive',
+                    diag=p['diag'], device='cpu', verbose=False, tuning_metric='mse')
     rec = ScriptedFit(model, scores=p.get('script'))
     model.fit((t(X * c), t(y)), (t(Xv * c), t(yv)), iters=p['iters'], reg=REG, verbose=False,
               early_stop_rfm=False, return_best_params=p['return_best'])
@@ -392,6 +402,16 @@ def gen_cases(run):
         for iters in ([0, 2] if quick else [0, 1, 2, 3]):
             cases.append(dict(family='sum-power-adaptive', kernel=alias, q=r.choice(QS), base=1.0, diag=False, iters=iters, return_best=True,
                               n=12, d=3, nv=6, nt=3, outputs=1, seed=r.randint(0, 2 ** 31 - 1)))
+    # logistic leaves in adaptive mode: the stored bandwidth is base x median here too (scale comparison of the IRLS
+    # iterates is not attempted: no rounding bound for them)
+    for t in range(10 if quick else 80):
+        kernel = ['l2', 'l1', 'l2_high_dim', 'lpq'][t % 4]
+        q = r.choice([0.7, 1.0, 1.3])
+        pn = round(r.uniform(max(q, 0.8), 2.0), 3) if kernel == 'lpq' else None
+        cases.append(dict(family='adaptive-fit', kernel=kernel, q=q, p=pn, base=round(math.exp(r.uniform(math.log(0.3), math.log(5.0))), 6),
+                          diag=r.random() < 0.3, iters=r.randint(0, 2), return_best=r.random() < 0.6, script=None,
+                          n=r.randint(20, 60), d=r.randint(2, 5), nv=r.randint(10, 30), nt=5, outputs=1, correlated=False, spread=r.choice([1.0, 0.05, 30.0]),
+                          shift=0.0, scales=[], seed=r.randint(0, 2 ** 31 - 1), replicates=1, logistic=True))
     # the AGOP step itself (Model/AgopStep.lean) against RFM.fit_M
     for t in range(24 if quick else 240):
         kernel = ['l2', 'l1', 'lpq', 'l2_high_dim'][t % 4]
